@@ -117,7 +117,27 @@ def norm_val(s):
 _SPEC = {"vocab": set(), "vars": set()}
 
 
-def fw_items(cpp, marks, spec=None):
+def variant_views(cpp):
+    """a sketch may hold SEVERAL sections of one name (one per argument-type signature of a function): -> list of section
+    lists, the j-th keeps of every function its j-th variant (modulo their number) - every variant is in some view"""
+    secs = sections(cpp)
+    count = {}
+    for name, _, _ in secs:
+        count[name] = count.get(name, 0) + 1
+    views = []
+    for j in range(max(count.values()) if count else 1):
+        seen = {}
+        view = []
+        for sec in secs:
+            k = seen.get(sec[0], 0)
+            seen[sec[0]] = k + 1
+            if k == j % count[sec[0]]:
+                view.append(sec)
+        views.append(view)
+    return views
+
+
+def fw_items(cpp, marks, spec=None, secs=None):
     """-> (items, problem): items = sorted list of (path, item) for every control header and every
     line carrying one of the numbers `marks`, `continue;`, `break;`, `return;`; path = tuple of steps
     ("sec", name) / ("chain", negated conditions, own condition | None) / ("blk", what).
@@ -126,7 +146,7 @@ def fw_items(cpp, marks, spec=None):
     items = []
     global _SPEC
     _SPEC = spec or {"vocab": set(), "vars": set()}
-    for name, hdr, body in sections(cpp):
+    for name, hdr, body in (sections(cpp) if secs is None else secs):
         tree = c_read(body)
         if tree is None:
             return None, f"the braces of {hdr!r} do not balance"
@@ -154,7 +174,7 @@ def _walk_c(trees, pre, items, marks):
                 items.append((pre, ("line", s)))
             elif ma and ma.group(2) in _SPEC["vars"]:
                 items.append((pre, ("asg", ma.group(2), norm_val(ma.group(3)), ma.group(1))))
-            elif s in ("continue;", "break;", "return;"):
+            elif s in ("continue;", "break;", "return;") or s.startswith("return "):
                 items.append((pre, ("jump", s)))
             elif MARK_LINE.match(s):
                 for tok in re.findall(r"(?<![\w.])\d+(?![\w.])", s):
